@@ -861,7 +861,9 @@ class WSGIApp:
             "submodel_id": url_args["submodel_id"]
         }, force_external=True)
         if "path" in url_args:
-            redirect_url += "/" + url_args["path"]
+            # the path converter hands over the decoded path: encode it again (it may contain line breaks, non-ASCII
+            # characters, '?' or '#')
+            redirect_url += "/" + urllib.parse.quote(url_args["path"], safe="/!$&'()*+,;=:@~-._")
         if request.query_string:
             # the query string may contain raw non-ASCII bytes; keep them percent-encoded
             redirect_url += "?" + urllib.parse.quote(request.query_string, safe="!$&'()*+,;=:@/?%~-._")
